@@ -64,26 +64,27 @@ def realise(order, kinds, steps, seed):
         joint, names = two_block_joint(), ["s", "x"]
     else:
         joint, names = zoo.hier_joint(), ["d", "s", "x"]
-    strat, nst, classes = {}, {}, {}
+    strat, nst, classes, makers = {}, {}, {}, {}
     for blk, name in zip(order, names):
         k = kinds[blk]
         if name == "x":
             if k == "Exact":
-                smp = M.LinearRTO(maxit=30)
+                mk = lambda: M.LinearRTO(maxit=30)
             elif k == "Cached":
-                smp = rnd.choice([lambda: M.MH(scale=0.2), lambda: M.CWMH(scale=0.2), lambda: M.MALA(scale=0.02),
-                                  lambda: M.ULA(scale=0.005), lambda: M.PCN(scale=0.2)])()
+                mk = rnd.choice([lambda: M.MH(scale=0.2), lambda: M.CWMH(scale=0.2), lambda: M.MALA(scale=0.02),
+                                 lambda: M.ULA(scale=0.005), lambda: M.PCN(scale=0.2)])
             else:
-                smp = M.NUTS(max_depth=2)
+                mk = lambda: M.NUTS(max_depth=2)
         else:
             if k == "Exact":
-                smp = M.Conjugate()
+                mk = lambda: M.Conjugate()
             elif k == "Cached":
-                smp = M.MH(scale=0.2, initial_point=np.array([1.0]))
+                mk = lambda: M.MH(scale=0.2, initial_point=np.array([1.0]))
             else:
                 return None              # no gradient-based sampler applies to the Gamma hyper-parameter blocks
-        strat[name], nst[name], classes[name] = smp, int(steps[blk]), type(smp).__name__
-    return joint, strat, nst, classes
+        smp = mk()
+        strat[name], nst[name], classes[name], makers[name] = smp, int(steps[blk]), type(smp).__name__, mk
+    return joint, strat, nst, classes, makers
 
 
 def run_config(rec, cfgcase, seed):
@@ -93,7 +94,7 @@ def run_config(rec, cfgcase, seed):
     r = realise(cfgcase["order"], cfgcase["kinds"], cfgcase["steps"], seed)
     if r is None:
         return None
-    joint, strat, nst, classes = r
+    joint, strat, nst, classes, makers = r
     with zoo.quiet():
         np.random.seed(seed)
         g = cuqi.experimental.mcmc.HybridGibbs(joint, strat, nst)
@@ -104,7 +105,66 @@ def run_config(rec, cfgcase, seed):
         else:
             g.sample(3)
         js = g.get_samples()
+    g._cv_makers = makers
     return g, js, classes
+
+
+TWIN_CLASSES = {"LinearRTO", "RegularizedLinearRTO", "UGLA", "Conjugate", "ConjugateApprox", "Direct"}
+
+
+def twin_sweep(ctx, g, label):
+    """One more sweep: every block transition must equal the transition a FRESHLY constructed sampler of the same
+    configuration makes on the conditional target the block was handed, from the same point with the same random numbers
+    (the block is drawn 'by its assigned sampler from the joint target conditioned on the most recent values').
+    Samplers with cached target evaluations are judged by the cache_ok facet of the trace instead."""
+    from cuqiverif import zoo
+    makers = getattr(g, "_cv_makers", None)
+    if not makers:
+        return
+    log = []
+    undo = []
+    for name, smp in g.samplers.items():
+        if type(smp).__name__ not in TWIN_CLASSES:
+            continue
+        orig = smp.step
+
+        def mk(name=name, smp=smp, orig=orig):
+            def step(*a, **k):
+                before = (np.random.get_state(), np.array(smp.current_point, dtype=float, copy=True), smp.target)
+                out = orig(*a, **k)
+                log.append((name, before, np.array(smp.current_point, dtype=float, copy=True)))
+                return out
+            return step
+        smp.step = mk()
+        undo.append(smp)
+    try:
+        with zoo.quiet():
+            g.step()
+    finally:
+        for smp in undo:
+            try:
+                del smp.step
+            except Exception:
+                pass
+    keep = np.random.get_state()
+    try:
+        for name, (rs, start, target), result in log:
+            with zoo.quiet():
+                twin = makers[name]()
+                twin.target = target
+                twin.initial_point = start
+                twin.initialize()
+                np.random.set_state(rs)
+                twin.step()
+            got = np.array(twin.current_point, dtype=float).reshape(-1)
+            ctx.case(("twin", label, type(twin).__name__, name))
+            if got.shape != result.reshape(-1).shape or not np.allclose(got, result.reshape(-1), rtol=1e-7, atol=1e-10):
+                ctx.mismatch("twin/%s/%s" % (label, type(twin).__name__), {"kind": "twin", "label": label, "block": name},
+                             "block %s: the transition made inside the Gibbs sweep is not the transition a freshly constructed %s makes "
+                             "on the conditional it was handed (same point, same random numbers)" % (name, type(twin).__name__),
+                             expected=got, observed=result)
+    finally:
+        np.random.set_state(keep)
 
 
 def _check_stored_values(ctx, rec, g, js, names, label):
@@ -249,6 +309,7 @@ def run(ctx):
     validate_traces(ctx, traces, "configs")
     for c, (g, js, classes) in runs:
         _check_stored_values(ctx, rec, g, js, list(g.par_names), "HybridGibbs")
+        twin_sweep(ctx, g, "HybridGibbs")
     # legacy: returned (cumulative) sample-phase chain = post-sweep values of the sample-phase sweeps
     copies = rec.copies.get(rec.key(lg), [])
     for n in lg.par_names:
